@@ -268,9 +268,9 @@ package main
 //@   requires cursor(rdr) >= 0
 //@   modifies elems(buf) ghost:stream
 //@   ensures 0 <= n && n <= len(buf)
-//@   ensures cursor(rdr) == old(cursor(rdr)) + n && cursor(rdr) <= len(stream(rdr))
-//@   ensures string(buf[0:n]) == stream(rdr)[old(cursor(rdr)):cursor(rdr)]
-//@   ensures err == io.EOF ==> cursor(rdr) == len(stream(rdr))
+//@   ensures cursor(rdr) == old(cursor(rdr)) + n && cursor(rdr) <= streamlen(rdr)
+//@   ensures forall k int :: 0 <= k && k < n ==> buf[k] == streamat(rdr, old(cursor(rdr)) + k)
+//@   ensures err == io.EOF ==> cursor(rdr) == streamlen(rdr)
 
 //@ func collisionOrCorrupt trusted
 //@   modifies all
@@ -282,7 +282,8 @@ package main
 //@ func compareReaderWithBuf property C01 safety -bounds,-makeslice
 //@   requires cursor(rdr) == 0
 //@   sync go#1 at select#1
-//@   ensures result == nil ==> stream(rdr) == string(expect)
-//@   loop 1: invariant rdr == old(rdr) && expect == old(expect) && 0 <= cursor(rdr) && cursor(rdr) <= len(stream(rdr)) && cursor(rdr) + len(cmp) == len(expect) && cmp == expect[cursor(rdr):]
-//@   loop 1: invariant stream(rdr)[0:cursor(rdr)] == string(expect[0:cursor(rdr)])
+//@   calls Context.Err#1: ensures $r != nil
+//@   ensures result == nil ==> streamlen(rdr) == len(expect) && (forall k int :: 0 <= k && k < len(expect) ==> streamat(rdr, k) == expect[k])
+//@   loop 1: invariant rdr == old(rdr) && expect == old(expect) && 0 <= cursor(rdr) && cursor(rdr) <= streamlen(rdr) && cursor(rdr) + len(cmp) == len(expect) && cmp == expect[cursor(rdr):]
+//@   loop 1: invariant forall k int :: 0 <= k && k < cursor(rdr) ==> streamat(rdr, k) == expect[k]
 //@   loop 1: invariant forall k int :: 0 <= k && k < len(expect) ==> expect[k] == old(expect[k])
